@@ -818,6 +818,7 @@ fn run(ctx: &Ctx) {
     if !ctx.run_prop("text_and_json", RULE, ctx.cases(1500, 160_000), strat, check) {
         return;
     }
+    ctx.shrink_iters.store(300, std::sync::atomic::Ordering::Relaxed);
     if !ctx.run_prop("text_json_and_pdf", RULE, ctx.cases(40, 3_000), strat, check_with_pdf) {
         return;
     }
